@@ -50,11 +50,14 @@ class Project:
 		self.labels: dict[str, str] = {}
 		self.second = int(time.time()) - 1000
 
-	def add_generated(self, rng: random.Random, i: int, eof_variant: bool = False) -> str:
+	def add_generated(self, rng: random.Random, i: int, eof_variant: bool = False, cr_variant: bool = False) -> str:
 		src, d = pygen.gen_module(rng, n_statements=rng.randint(1, 5))
 		label = f"generated#{i}:{d['unit']}"
 		if eof_variant:
 			src, tag = eof_variant_of(rng, src, d['indent'])
+			label += f':{tag}'
+		if cr_variant:
+			src, tag = cr_variant_of(rng, src)
 			label += f':{tag}'
 		return self.add_source(f'gen.m{i}', src, label)
 
@@ -95,6 +98,26 @@ def eof_variant_of(rng: random.Random, src: str, unit: str) -> tuple[str, str]:
 	if r < 0.8:
 		return src + f'def tail() -> None:\n{unit}pass', 'eof-block-no-newline'
 	return src + f'def tail() -> None:\n{unit}pass\n{unit}', 'eof-indented-no-newline'
+
+
+CR_LONG_STRINGS = ["'''l1\nl2'''\n", 's0 = """a\n\n  b\n"""\n', "# c\n'''x\n\t\tfar''' + a\n"]
+CR_COMMENTS = ['# a\rb', '#\r', '# \r x = 1', '# tail\r\r']
+CR_STRINGS = ["s0 = 'a\rb'", '"""d\rd"""', "s0 = f('\r', 1)"]
+
+
+def cr_variant_of(rng: random.Random, src: str) -> tuple[str, str]:
+	"""files with carriage returns, as they are stored: CRLF line ends (a long string then holds CR LF, a comment token ends
+	in CR) and a bare CR inside a comment or a string literal in front of everything else. Only a line feed ends a line —
+	for the parser, for the renderer's binary readlines and for a span; a reader that translates line ends shifts every
+	later node against the file."""
+	r = rng.random()
+	if r < 0.3:
+		return src.replace('\n', '\r\n'), 'crlf'
+	if r < 0.5:
+		return (rng.choice(CR_LONG_STRINGS) + src).replace('\n', '\r\n'), 'crlf-long-string'
+	if r < 0.8:
+		return rng.choice(CR_COMMENTS) + '\n' + src, 'cr-in-comment'
+	return rng.choice(CR_STRINGS) + '\n' + src, 'cr-in-string'
 
 
 class chdir:
@@ -376,6 +399,7 @@ def stream_hull(ctx: Ctx) -> Stream:
 	broken: list[dict[str, Any]] = []
 	only_filtered = [0]
 	empty_metas = [0]
+	regions = [0]
 	for label, src in diskproj.bounded(sources, *diskproj.budgets(ctx), label=lambda x: x[0]):
 		app.source = src
 		# the parser completes a last line without line feed (parser.py `__load_source`); lex and measure the same text
@@ -391,6 +415,11 @@ def stream_hull(ctx: Ctx) -> Stream:
 		real = [f'ok {count_lines(text)}', f"ok {len(offs)} {'true' if py_off else 'false'}"]
 		if not py_off:
 			broken.append({'case': label, 'assumption': 'lexer tokens come left to right without overlap', 'real': 'false'})
+		py_in = all(a < b <= len(text) for a, b in offs)
+		ops.append('tokswf')
+		real.append('true' if py_in else 'false')
+		if not py_in:
+			broken.append({'case': label, 'assumption': 'every lexer token is non-empty and lies inside the text', 'real': 'false'})
 		for k in (range(len(toks)) if len(toks) <= 200 else rng.sample(range(len(toks)), 200)):
 			t = toks[k]
 			ops.append(f'tokpos\t{k}')
@@ -460,6 +489,19 @@ def stream_hull(ctx: Ctx) -> Stream:
 			iv = interval(t)
 			ops.append(f'ispan\t{iv[0]}\t{iv[1]}' if iv else 'ispan\t0\t0')
 			real.append(f'ok {m.line},{m.column},{m.end_line},{m.end_column}' if iv else 'not-token-aligned')
+			if iv:
+				# the region the recorded (line, column) span delimits, by the model's own position arithmetic, is lark's own
+				# [start_pos, end_pos); the tokens whose recorded positions lie inside the recorded span are the consumed ones
+				# (theorems span_region / span_holds_exactly_own_tokens: they must be exactly lo … hi−1)
+				ops.append(f'iregion\t{iv[0]}\t{iv[1]}')
+				real.append(f'ok {m.start_pos} {m.end_pos - m.start_pos} true')
+				inside = [k for k, t in enumerate(toks) if (m.line, m.column) <= (t.line, t.column) and (t.end_line, t.end_column) <= (m.end_line, m.end_column)]
+				run = bool(inside) and inside == list(range(inside[0], inside[0] + len(inside)))
+				ops.append(f'itoks\t{iv[0]}\t{iv[1]}')
+				real.append(f"ok {inside[0] if inside else 0} {len(inside)} {'true' if run or not inside else 'false'}")
+				regions[0] += 1
+				if inside != list(range(iv[0], iv[1])):
+					broken.append({'case': label, 'assumption': 'the tokens whose recorded positions lie inside the span of a tree are exactly the tokens it consumed', 'real': f'{t.data} [{iv[0]}, {iv[1]}): {inside[:5]}… ({len(inside)})'})
 		if root._meta is not None and not root._meta.empty:
 			enc: list[str] = []
 			aligned = itree(root, enc)
@@ -478,7 +520,8 @@ def stream_hull(ctx: Ctx) -> Stream:
 	st.histogram['ops'] = sum(len(c[1]) for c in cases)
 	st.histogram['trees-of-filtered-tokens-only'] = only_filtered[0]
 	st.histogram['trees-with-empty-meta'] = empty_metas[0]
-	st.note = "lark's real token stream (parse_interactive().exhaust_lexer() on the text the parser parses, _INDENT/_DEDENT removed) and real metas: token (line, column) vs own arithmetic at the token offsets; offsets left-to-right; every sampled tree's meta vs the span of its token interval [lo, hi) (found by offset, so filtered punctuation/_NEWLINE/end-of-input dedents are inside); the whole tree's interval structure vs the interface hypothesis `ITree.wf`; a tree with an empty meta holds nothing positioned, trees made of filtered tokens only (pass, [], True …) are counted"
+	st.histogram['regions-checked'] = regions[0]
+	st.note = "lark's real token stream (parse_interactive().exhaust_lexer() on the text the parser parses, _INDENT/_DEDENT removed) and real metas: token (line, column) vs own arithmetic at the token offsets; offsets left-to-right; every sampled tree's meta vs the span of its token interval [lo, hi) (found by offset, so filtered punctuation/_NEWLINE/end-of-input dedents are inside); the whole tree's interval structure vs the interface hypothesis `ITree.wf`; a tree with an empty meta holds nothing positioned, trees made of filtered tokens only (pass, [], True …) are counted; every token non-empty and inside the text (tokswf); per sampled tree the characters whose own (line, column) lies in the recorded span vs lark's [start_pos, end_pos) (iregion) and the tokens whose recorded positions lie inside the recorded span vs the model's (itoks) — and they must be the consumed interval [lo, hi) itself"
 	return st
 
 
@@ -638,7 +681,9 @@ def check_tree(label: str, src: str, root: Any, literals: set[str], res: SearchR
 	first, last = grammar_first_last(grammar) if grammar is not None else ({}, {})
 	starts = line_starts(src)
 	eof = (len(starts), len(src) - starts[-1] + 1)
-	ptoks = py_tokens(src)
+	# CPython's tokenizer translates a bare CR into a line break (the parser under test and the file do not): its positions are
+	# not comparable there; the text-level clauses (token text = slice of the file, nesting, order, FIRST/LAST) still apply
+	ptoks = py_tokens(src) if not re.search(r'\r(?!\n)', src) else None
 	bounds: set[tuple[int, int]] = {eof, (1, 1)}
 	if not src.endswith('\n'):
 		bounds.add((len(starts) + 1, 1))
@@ -664,12 +709,24 @@ def check_tree(label: str, src: str, root: Any, literals: set[str], res: SearchR
 	def span(e: Any) -> tuple[Any, Any, Any, Any]:
 		return sm_of(e.source_map)
 
+	def py_end(pos: tuple[int, int]) -> tuple[int, int]:
+		"""an end position that stands between the CR and the LF of a CRLF line end, moved in front of the CR (where CPython, for
+		which CR LF is one line break, ends the token): only a comment token that swallowed the CR ends there — reported once
+		per module under its own key `comment-span-includes-cr`, and not again by the clauses that compare with CPython"""
+		if 1 <= pos[0] <= len(starts) and pos[1] >= 2:
+			off = starts[pos[0] - 1] + pos[1] - 1
+			if src[off - 1:off + 1] == '\r\n':
+				return (pos[0], pos[1] - 1)
+		return pos
+
+	cr_comment_reported = [False]
+
 	def terminals(e: Any, acc: list[tuple[str, tuple[int, int], tuple[int, int]]]) -> None:
 		if e.is_terminal:
 			s = span(e)
 			# `match`/`case` are soft keywords: NAME for CPython, anonymous terminals kept under `name` by lark's python grammar
 			if (e.name in NAMED_TERMINALS or keyword.issoftkeyword(e.value)) and s != (0, 0, 0, 0):
-				acc.append((e.value, (s[0], s[1]), (s[2], s[3])))
+				acc.append((e.value, (s[0], s[1]), py_end((s[2], s[3])) if e.name == 'COMMENT' and None not in s else (s[2], s[3])))
 		for c in e.children:
 			terminals(c, acc)
 
@@ -698,6 +755,10 @@ def check_tree(label: str, src: str, root: Any, literals: set[str], res: SearchR
 			elif e.is_terminal:
 				if text != e.value:
 					find('token-slice', f'token {path} = {e.value!r} but its span {s} holds {text!r}', path)
+				elif e.name == 'COMMENT' and py_end(en) != en and not cr_comment_reported[0]:
+					# the comment's span reaches into the line break: the CR of a CRLF line end is part of the token
+					cr_comment_reported[0] = True
+					find('comment-span-includes-cr', f'comment {path} = {e.value!r}: its span {s} ends between the CR and the LF of the CRLF line end (the line break is cut in two; the comment text carries the CR)', path)
 			if text is not None and not e.is_terminal and lex is not None:
 				# the span begins at a token the node's own rule can begin with and ends at one it can end with (a span that
 				# swallows a neighbouring token of the surrounding rule — `if` before a comprehension condition, `:` before an
@@ -712,7 +773,7 @@ def check_tree(label: str, src: str, root: Any, literals: set[str], res: SearchR
 					res.histogram['first-last-checked'] = res.histogram.get('first-last-checked', 0) + 1
 			if text is not None and not e.is_terminal and ptoks is not None:
 				# token-aligned (quoted annotations are lexed by the grammar as ' NAME ': boundaries inside a CPython STRING are exempt)
-				for pos, side in ((b, 'begin'), (en, 'end')):
+				for pos, side in ((b, 'begin'), (py_end(en), 'end')):
 					if pos not in bounds and not inside_string(pos):
 						find('boundary', f'{side} {pos} of {path} (span {s}) is not a token boundary', path)
 				acc: list[tuple[str, tuple[int, int], tuple[int, int]]] = []
@@ -774,6 +835,34 @@ def compare_with_cold(label: str, src: str, cold: dict[str, Any], warm: dict[str
 			n += 1
 			if n >= 3:
 				break
+
+
+def check_in_memory(mem: Any, label: str, src: str, cold: dict[str, Any], literals: set[str], res: SearchResult, grammar: Any) -> None:
+	"""parses `src` as the in-memory `__main__` module exactly as given (MemApp.entrypoint would append a line feed) and
+	evaluates the span statements on it; its spans must be, path by path, those of the stored file with the same text"""
+	from rogw.tranp.syntax.ast.entrypoints import Entrypoints
+	lab = f'{label}:in-memory'
+	replay = {'module': lab, 'source': src[:20000]}
+	try:
+		mem.source = src
+		eps = mem.resolve(Entrypoints)
+		eps.unload(mem.main)
+		ep = eps.load(mem.main)
+		root = diskproj.nodes_of(ep)._Nodes__entries.by(ep.full_path)
+	except Exception as e:  # noqa: BLE001 - the stored file with this text parsed
+		res.findings.append(Finding(key=f'in-memory-parse-raises:{exc_enum(e)}', what=f'{lab}: the text parses as a stored file but raises {exc_enum(e)} as an in-memory module', replay=replay))
+		return
+	res.cases += 1
+	res.histogram['in-memory'] = res.histogram.get('in-memory', 0) + 1
+	try:
+		spans = check_tree(lab, src, root, literals, res, '', grammar)
+	except Exception as e:  # noqa: BLE001
+		res.findings.append(Finding(key=f'span-raises:{exc_enum(e)}', what=f'{lab}: reading the spans raises {exc_enum(e)}', replay=replay))
+		return
+	if list(spans.values()) != list(cold.values()):
+		diff = next(((p, q, a, b) for (p, a), (q, b) in zip(cold.items(), spans.items()) if a != b), None)
+		what = f'{len(cold)} vs {len(spans)} entries' if diff is None else f'{diff[0]} has span {diff[2]} in the stored file and {diff[1]} has {diff[3]} in memory'
+		res.findings.append(Finding(key='span-differs-in-memory', what=f'{lab}: {what}', replay=replay))
 
 
 _COLD_QUOTES: dict[tuple[str, str], Any] = {}
@@ -872,8 +961,11 @@ def search_spans(ctx: Ctx) -> tuple[SearchResult, SearchResult]:
 		mods.append(pr.add_source(f'gen.corpus{k}', src, f'corpus:{name}'))
 	n_gen = ctx.scale(60, 600)
 	for i in range(n_gen):
-		mods.append(pr.add_generated(rng, i, eof_variant=(i % 6 == 1)))
+		mods.append(pr.add_generated(rng, i, eof_variant=(i % 6 == 1), cr_variant=(i % 6 == 3)))
+	for k, src in enumerate(c15.STATEMENT_FREE):
+		mods.append(pr.add_source(f'gen.free{k}', src, f'statement-free#{k}:{src!r}'))
 	mods += [pr.add_real(mp) for mp in real_modules(ctx, rng, ctx.scale(6, 120))]
+	mem = common.MemApp(ctx.tmpdir())
 	seen = set()
 	exercised = 0
 	_FRESH_SEEN.clear()
@@ -910,6 +1002,10 @@ def search_spans(ctx: Ctx) -> tuple[SearchResult, SearchResult]:
 			sampled = check_quotations(pr, mp, ep, rng, ctx.scale(40, 60), resq, suffix, sampled if restored else None)
 			kind = pr.labels[mp].split('#')[0].split(':')[0] if mp.startswith('gen.') else 'real'
 			res.histogram[kind + suffix] = res.histogram.get(kind + suffix, 0) + 1
+		if cold_spans and (mp.startswith('gen.free') or (mp.startswith('gen.m') and int(mp[5:]) % 3 == 1)):
+			# the same text as a module that exists only in memory (never cached, no file to quote): the spans are those of the
+			# stored file — in particular for texts that do not end with a line feed
+			check_in_memory(mem, pr.labels[mp], pr.sources[mp], cold_spans, literals, res, grammar)
 		if mp.startswith('gen.m') and int(mp[5:]) % 4 == 0:
 			# history: the file is edited (within the same whole second of its mtime) after its tree was cached; a fresh App on
 			# the same cache directory must then report spans that delimit the CURRENT text
@@ -1015,6 +1111,11 @@ STATEMENTS = {
 	'tokens_chain': 'tokens handed out left to right (offsets) have ordered, non-overlapping (line, column) spans — the Chain hypothesis is derived',
 	'span_nest': 'a tree consuming the token interval [lo, hi) whose children consume sub-intervals in order (interface hypothesis wf): every child span lies inside the tree span',
 	'span_siblings': 'under the same hypothesis the spans of two children do not overlap and follow the order of the children',
+	'pos_strict': 'inside the text a later character has a strictly later (line, column): positions identify characters',
+	'span_region': 'the region the recorded span of a tree over tokens [lo, hi) delimits (characters whose own (line, column) lies in [begin, end)) is exactly the stretch from the first character of token lo to the last character of token hi−1 (tokens non-empty and inside the text)',
+	'span_holds_exactly_own_tokens': 'the lexer tokens whose recorded positions lie inside that span are exactly the tokens lo … hi−1 the tree consumed, no other token of the module (tokens ordered, non-empty, inside the text)',
+	'region_enumerated': "the driver's list behind op iregion enumerates exactly the characters of the region as defined",
+	'tokens_enumerated': "the driver's list behind op itoks enumerates exactly the tokens inside the span as defined",
 	'hull_nest': 'under the hull model (span = first..last consumed token, tokens ordered/non-overlapping) a child span lies inside the parent span',
 	'hull_siblings': 'under the hull model sibling spans are ordered and do not overlap',
 	'hull_chain_sub': 'token order is inherited by every subtree, so nesting/sibling order hold at every depth',
@@ -1028,7 +1129,12 @@ def guard_stream(fn: Any, ctx: Ctx) -> Stream:
 		st = Stream(fn.__name__.replace('stream_', 'span-'))
 		st.disagreements.append({'case': case, 'op': '(budget)', 'real': 'the real code did not finish within the per-case budget', 'model': '-'})
 		return st
-	return diskproj.guarded(fn, ctx, on_timeout)
+
+	def on_error(case: Any, what: str) -> Stream:
+		st = Stream(fn.__name__.replace('stream_', 'span-'))
+		st.disagreements.append({'case': case, 'op': '(unreadable result)', 'real': f'an observation of the real code could not be taken or encoded: {what}', 'model': '-'})
+		return st
+	return diskproj.guarded(fn, ctx, on_timeout, on_error)
 
 
 def guard_search(fn: Any, ctx: Ctx) -> Any:
@@ -1036,7 +1142,12 @@ def guard_search(fn: Any, ctx: Ctx) -> Any:
 		res = SearchResult(f'{fn.__name__}: budget')
 		res.findings.append(Finding(key='real-code-exceeds-budget', what=f'{fn.__name__}: the real code did not finish within the per-case budget on {case}', replay={'case': case}))
 		return (res, SearchResult(f'{fn.__name__}: budget (quotations)')) if fn.__name__ == 'search_spans' else res
-	return diskproj.guarded(fn, ctx, on_timeout)
+
+	def on_error(case: Any, what: str) -> Any:
+		res = SearchResult(f'{fn.__name__}: unexpected exception')
+		res.findings.append(Finding(key=f"oracle-raises:{what.split(':')[0]}", what=f'{fn.__name__}: evaluating the statement on {case} raised {what}', replay={'case': case, 'exception': what}))
+		return (res, SearchResult(f'{fn.__name__}: unexpected exception (quotations)')) if fn.__name__ == 'search_spans' else res
+	return diskproj.guarded(fn, ctx, on_timeout, on_error)
 
 
 def run(ctx: Ctx) -> int:
@@ -1061,10 +1172,11 @@ def run(ctx: Ctx) -> int:
 		partial={
 			'proved': "tranp's own span handling: span selection, minus-one shift, line loading with tab replacement, caret range (single/multi-line, empty), survival through the cache, the self-hosted collector; nesting/ordering consequences of the hull model",
 			'assumed_and_streamed': "only the parser's interface: tokens come left to right; a tree consumes a contiguous token interval, its children sub-intervals in order; the recorded span is (begin of first, end of last) consumed token — all checked by span-hull against lark's actual token stream and metas; nesting/sibling order and the position arithmetic are proved",
-			'search_only': "the region delimited by a span holds exactly the node's tokens (CPython tokenizer as oracle)",
+			'proved_under_the_same_interface': "the region delimited by a recorded span is the stretch first token … last token and the lexer tokens inside it are exactly the tokens the tree consumed (span_region, span_holds_exactly_own_tokens; ops iregion/itoks of span-hull against lark's start_pos/end_pos and token positions)",
+			'search_only': "that the consumed tokens are the subtree's named terminals plus filtered punctuation/keywords only, and that the lexer's tokens are Python's tokens (CPython tokenizer as oracle) — lark's tree construction and lexer are third-party",
 		},
 		assumptions=[
-			"interface of lark's LALR parse with propagate_positions (validated by span-hull on every run): token offsets left to right; a tree consumes a contiguous token interval [lo, hi) incl. filtered tokens, children consume sub-intervals in order; recorded span = (begin of token lo, end of token hi−1); _INDENT/_DEDENT borrow the offsets of the preceding _NEWLINE",
+			"interface of lark's LALR parse with propagate_positions (validated by span-hull on every run): token offsets left to right; a tree consumes a contiguous token interval [lo, hi) incl. filtered tokens, children consume sub-intervals in order; recorded span = (begin of token lo, end of token hi−1); _INDENT/_DEDENT borrow the offsets of the preceding _NEWLINE; every token is non-empty and lies inside the parsed text (op tokswf)",
 			'source files are valid UTF-8 without CR; a column is a character index (tabs and wide characters count as one)',
 			'ErrorCollector._progress (repr of the token text) is not modelled; of ErrorRender.render the assembly and the quotation are modelled, the stack trace lines (regex over traceback text), the class path and str(node) are inputs',
 		],
